@@ -3,6 +3,7 @@ SPECIFICATION Spec
 CONSTANTS
   EPs = {"station.ingest", "station.wrap", "transport.params", "regproc", "api", "dnsreg", "responder", "msgformat", "rdatatxt"}
   Strength = 2
+  Thin = FALSE
   MissingGuards = {}
 INVARIANTS TypeOK NeverCrash NeverHangs NoFourthValue AlwaysAnswersHTTP AcceptedOnlyWhenComplete StatusMatchesOutcome NominalAccepted
 CHECK_DEADLOCK FALSE
